@@ -99,6 +99,21 @@ def statsBlock (ver : UInt8) (s : Stats) (b : EBlock) : Stats :=
   let gaps := if s.lastTs > 0 then s.gaps ++ [b.blk.header.time - s.lastTs] else s.gaps
   { s with gaps := gaps, lastTs := b.blk.header.time }
 
+/-- dev-profile panics of `SimpleStats::on_block`: `outputs[0]` of a coinbase-shaped transaction without outputs, the shift in
+    `get_base_reward` at heights ≥ 64·210000, and u64 overflow of any running sum (`attempt to add with overflow`) -/
+def statsPanics (ver : UInt8) (bs : List EBlock) : Bool :=
+  bs.any (fun b => b.blk.txs.any fun t => isCoinbase t && (t.outs.isEmpty || decide (b.height / 210000 ≥ 64))) ||
+  bs.any (fun b => b.blk.txs.any fun t => decide (txVolume t ≥ 2^64)) ||
+  (let s := bs.foldl (statsBlock ver) {}
+   decide (s.fees ≥ 2^64) || decide (s.volume ≥ 2^64) || decide (s.txs ≥ 2^64) || decide (s.ins ≥ 2^64) || decide (s.outs ≥ 2^64))
+
+/-- dev-profile panic of `Balances::on_complete`: a per-address sum leaving u64 -/
+def balancePanics (m : HashMap Bytes Unspent) : Bool := (balanceMap m).toList.any fun p => decide (p.2 ≥ 2^64)
+
+/-- number of outputs `insert_unspents` reports: the address-bearing ones -/
+def insertedCount (ver : UInt8) (bs : List EBlock) : Nat :=
+  (bs.flatMap (·.blk.txs)).foldl (fun a t => a + (t.outs.filter fun o => (S.eval ver o.script).address.isSome).length) 0
+
 def statsLines (s : Stats) : List String :=
   [s!"blocks={s.blocks}", s!"txs={s.txs}", s!"ins={s.ins}", s!"outs={s.outs}", s!"fees={s.fees}", s!"volume={s.volume}",
    s!"bigval={s.bigVal.1}@{s.bigVal.2.1}:{hashHex s.bigVal.2.2}", s!"bigsize={s.bigSize.1}@{s.bigSize.2.1}:{hashHex s.bigSize.2.2}",
